@@ -216,14 +216,13 @@ theorem seqStates_take (w : Nat) (eqv : Nat → Nat → Bool) (p : List Nat) (dm
     · simp [seqStates, List.getD_eq_getElem?_getD, h]
     · omega
 
-/-- the Sellers matrix, the stored states and the ring satisfy the assumptions of the loop theorem; `c` = number of
-text symbols consumed so far, `stop ≤ c` the (exclusive) end, reads possible down to sequence number `c + 2 − N` -/
-theorem stored_concrete (w : Nat) (eqv : Nat → Nat → Bool) (p : List Nat) (dmax N : Nat) (old : List (St w)) (t : List Nat)
-    (c stop : Nat) (hm1 : 1 ≤ p.length) (hw : p.length ≤ w) (hd : p.length < dmax) (hN : 0 < N) (hold : old.length = N)
-    (hc : c ≤ t.length) (hs : stop ≤ c) :
-    Stored p.length dmax (stop + 1) (c + 2 - N) (Dm (matrix (unitW eqv) p t))
-      (fun s => (seqStates w eqv p dmax t).getD s ⟨0#w, 0#w, 0⟩)
-      (readStore (storeAll N old 0 (seqStates w eqv p dmax (t.take c))) ((stop + 1) % N)) := by
+/-- the Sellers matrix and the states the search stores satisfy the assumptions of the loop theorem for every iterator
+`rd` that yields the stored states down to sequence number `lo` -/
+theorem stored_of_rd (w : Nat) (eqv : Nat → Nat → Bool) (p : List Nat) (dmax lo : Nat) (t : List Nat) (stop : Nat)
+    (rd : Nat → St w) (hm1 : 1 ≤ p.length) (hw : p.length ≤ w) (hd : p.length < dmax) (hs : stop ≤ t.length)
+    (hrd : ∀ k, k + lo ≤ stop + 1 → rd k = (seqStates w eqv p dmax t).getD (stop + 1 - k) ⟨0#w, 0#w, 0⟩) :
+    Stored p.length dmax (stop + 1) lo (Dm (matrix (unitW eqv) p t))
+      (fun s => (seqStates w eqv p dmax t).getD s ⟨0#w, 0#w, 0⟩) rd := by
   have hD : ∀ i j, i ≤ p.length → j ≤ t.length → Dm (matrix (unitW eqv) p t) i j = cell (unitW eqv) p (t.take j) i :=
     fun i j hi hj => Dm_matrix _ p t i j hi hj
   refine ⟨hm1, hw, hd, ?_, ?_, ?_, ?_⟩
@@ -254,11 +253,22 @@ theorem stored_concrete (w : Nat) (eqv : Nat → Nat → Bool) (p : List Nat) (d
       · intro i hi
         rw [colOf_succ, hD i j hi (by omega)]
       · rw [colOf_succ, hD _ j (Nat.le_refl _) (by omega), inv.dist]
-  · intro k hk
-    have hlen := seqStates_length w eqv p dmax (t.take c)
-    have htl : (t.take c).length = c := by simp; omega
-    rw [ring_read N hN old _ hold (stop + 1) k (by omega) (by omega) (by omega)]
-    exact seqStates_take w eqv p dmax t c (stop + 1 - k) hc (by omega)
+  · exact hrd
+
+/-- … in particular the ring: `c` = number of text symbols consumed so far, `stop ≤ c` the (exclusive) end, reads
+possible down to sequence number `c + 2 − N` -/
+theorem stored_concrete (w : Nat) (eqv : Nat → Nat → Bool) (p : List Nat) (dmax N : Nat) (old : List (St w)) (t : List Nat)
+    (c stop : Nat) (hm1 : 1 ≤ p.length) (hw : p.length ≤ w) (hd : p.length < dmax) (hN : 0 < N) (hold : old.length = N)
+    (hc : c ≤ t.length) (hs : stop ≤ c) :
+    Stored p.length dmax (stop + 1) (c + 2 - N) (Dm (matrix (unitW eqv) p t))
+      (fun s => (seqStates w eqv p dmax t).getD s ⟨0#w, 0#w, 0⟩)
+      (readStore (storeAll N old 0 (seqStates w eqv p dmax (t.take c))) ((stop + 1) % N)) := by
+  apply stored_of_rd w eqv p dmax _ t stop _ hm1 hw hd (by omega)
+  intro k hk
+  have hlen := seqStates_length w eqv p dmax (t.take c)
+  have htl : (t.take c).length = c := by simp; omega
+  rw [ring_read N hN old _ hold (stop + 1) k (by omega) (by omega) (by omega)]
+  exact seqStates_take w eqv p dmax t c (stop + 1 - k) hc (by omega)
 
 /-- **the stored-state traceback returns what the matrix rule returns**, whenever the walk ends at a column whose left
 neighbour has not been overwritten in the ring (`c + 2 − N ≤ start`) -/
@@ -279,6 +289,71 @@ theorem tracebackStore_eq (w : Nat) (eqv : Nat → Nat → Bool) (p : List Nat) 
   simp only [h, inv.dist]
   congr 1
   omega
+
+
+/-! ### the handler's numbers are matrix cells (concrete form) -/
+
+/-- what "the handler `h` carries the true values at cell `(i + 1, j)`" means, in terms of the Sellers cells
+`C r c = cell … (t.take c) r` (row `r` after `c` text symbols) -/
+def HandlerCells (w : Nat) (eqv : Nat → Nat → Bool) (p t : List Nat) (dmax i j : Nat) (h : Handler w) : Prop :=
+  h.state.dist = cell (unitW eqv) p (t.take j) (i + 1) ∧
+  (1 ≤ j → h.left.dist = cell (unitW eqv) p (t.take (j - 1)) i) ∧
+  (j = 0 → h.left.dist + (p.length - i) = dmax) ∧
+  (((h.left.dist + 1) % (dmax + 1) = h.state.dist) ↔
+    (1 ≤ j ∧ cell (unitW eqv) p (t.take (j - 1)) i + 1 = cell (unitW eqv) p (t.take j) (i + 1))) ∧
+  (((h.state.pv &&& h.pos) != 0#w) =
+    decide (cell (unitW eqv) p (t.take j) i + 1 = cell (unitW eqv) p (t.take j) (i + 1))) ∧
+  (((h.left.mv &&& h.pos) != 0#w) =
+    decide (1 ≤ j ∧ cell (unitW eqv) p (t.take (j - 1)) (i + 1) + 1 = cell (unitW eqv) p (t.take (j - 1)) i))
+
+/-- after `n` passes through the loop body of `_traceback_at(end = stop − 1)` on the states stored by the search, the
+handler is finished or its cursor is at some cell `(i + 1, j)` and: `block.dist` is that cell, `left_block.dist` the
+diagonal cell `(i, j − 1)` (for `j = 0` the sentinel value `dmax − (m − i)`), and the three tests of the loop body are the
+comparisons of the neighbouring cells -/
+theorem after_cells (w : Nat) (eqv : Nat → Nat → Bool) (p t : List Nat) (dmax stop n : Nat)
+    (hm1 : 1 ≤ p.length) (hw : p.length ≤ w) (hd : p.length < dmax) (hs : stop ≤ t.length) :
+    (Handler.after dmax p.length (fun k => (seqStates w eqv p dmax t).getD (stop + 1 - k) ⟨0#w, 0#w, 0⟩) n).pos = 0#w ∨
+    ∃ i j, i < p.length ∧ j ≤ stop ∧
+      (Handler.after dmax p.length (fun k => (seqStates w eqv p dmax t).getD (stop + 1 - k) ⟨0#w, 0#w, 0⟩) n).pos =
+        BitVec.twoPow w i ∧
+      HandlerCells w eqv p t dmax i j
+        (Handler.after dmax p.length (fun k => (seqStates w eqv p dmax t).getD (stop + 1 - k) ⟨0#w, 0#w, 0⟩) n) := by
+  have st := stored_of_rd w eqv p dmax 0 t stop
+    (fun k => (seqStates w eqv p dmax t).getD (stop + 1 - k) ⟨0#w, 0#w, 0⟩) hm1 hw hd hs (fun k _ => rfl)
+  have hinv := after_inv st (by omega) n
+  simp only [Nat.add_sub_cancel] at hinv
+  have hD : ∀ i j, i ≤ p.length → j ≤ t.length → Dm (matrix (unitW eqv) p t) i j = cell (unitW eqv) p (t.take j) i :=
+    fun i j hi hj => Dm_matrix _ p t i j hi hj
+  generalize Handler.after dmax p.length (fun k => (seqStates w eqv p dmax t).getD (stop + 1 - k) ⟨0#w, 0#w, 0⟩) n = h
+    at hinv ⊢
+  generalize curAfter (Dm (matrix (unitW eqv) p t)) p.length stop n = cur at hinv
+  obtain ⟨ci, j⟩ := cur
+  cases ci with
+  | zero => left; exact hinv
+  | succ i =>
+    right
+    simp only [HInvAny] at hinv
+    have hi := hinv.hi
+    have hj := hinv.hj
+    have t1 := test_subst st hinv
+    have t2 := test_ins st hinv
+    have t3 := test_del st hinv
+    have sd := hinv.sdist
+    have ld := hinv.ldist
+    rw [colOf_succ, hD _ _ (by omega) (by omega)] at sd
+    rw [hD _ _ (by omega) (by omega), hD _ _ (by omega) (by omega)] at t1 t2 t3
+    refine ⟨i, j, hi, by omega, hinv.pos, by omega, ?_, ?_, ?_, t2, ?_⟩
+    · intro hj1
+      obtain ⟨j', rfl⟩ : ∃ j', j = j' + 1 := ⟨j - 1, by omega⟩
+      rw [colOf_succ, hD _ _ (by omega) (by omega)] at ld
+      simp only [Nat.add_sub_cancel]
+      omega
+    · intro hj0
+      subst hj0
+      simp only [colOf, if_true] at ld
+      omega
+    · rw [t1]
+    · rw [t3]
 
 /-! ### how far the walk goes to the left -/
 
